@@ -350,6 +350,16 @@ fn label_problems(w: &World) -> Vec<(String, String)> {
                 format!("{}/primary-label-outside-the-faulty-declaration", dg.code),
                 format!("label {}..{} ({:?}) of {} lies in declaration {} which is not the faulty one", s, e, crate::util::short(&text[s..e], 20), dg.code, at),
             ));
+        } else if (dg.code == "P0005" || dg.code == "P0003") && {
+            // "first instance": the primary label of a duplicate is the first place the name is written
+            let word = text[s..e].to_lowercase();
+            let decl_start = ranges.iter().find(|(a, b, _, _)| *a <= s && e <= *b).map(|r| r.0).unwrap_or(0);
+            // the duplicated name written earlier in the same list (between the opening of the list and the label)
+            let before = text[decl_start..s].to_lowercase();
+            let list_start = before.rfind(['(', 'T']).unwrap_or(0); // '(' of the value list, or the T of STRUCT
+            before[list_start..].split(|c: char| !(c.is_ascii_alphanumeric() || c == '_' || c == '#')).any(|w| w == word || w.ends_with(&format!("#{}", word)))
+        } {
+            out.push((format!("{}/primary-label-not-on-the-first-instance", dg.code), format!("label {}..{} ({:?}) of {}: the same name is written earlier in the list", s, e, crate::util::short(&text[s..e], 20), dg.code)));
         } else if !boundaries.contains(&s) || !boundaries.contains(&e) {
             out.push((format!("{}/primary-label-splits-a-lexeme", dg.code), format!("label {}..{} ({:?}) of {} does not begin and end on lexeme boundaries", s, e, crate::util::short(&text[s..e], 20), dg.code)));
         }
